@@ -7,6 +7,14 @@ ROOT = os.path.dirname(os.path.dirname(os.path.abspath(__file__)))
 ALL = [f"C{i:02d}" for i in range(1, 21)]
 
 CLAIMED = {
+    "C17": dict(
+        text="Bounded symbolic execution (CrossHair/z3) of two real dispatcher sessions on one Server: frame condition per verb (B's whole Connection container, transcript and data connection untouched "
+             "while A executes one command from symbolic states of both; B's next PWD answers from B's own state), delivery of accepted data connections to the owning session, and two real Clients over "
+             "SimNet interleaved by symbolic per-session latencies compared with their solo runs (results equal, final tree = union).",
+        note="Trusted: CrossHair/z3, scripted channels, SimNet. Outside: more than two sessions, overlapping paths, interleavings finer than network deliveries in the pair harness.",
+        technique="bounded symbolic execution of the real Python code (CrossHair 0.0.110 + z3): two-session frame condition + interleaved pairs",
+        design_ref="DESIGN.md section 3 C17",
+    ),
     "C12": dict(
         text="Bounded symbolic execution (CrossHair/z3) of the real Server (start, dispatcher with its finally block, passive listeners, workers, close) serving the real Client over a simulated "
              "network, cut at a SYMBOLIC event-loop iteration by the peer vanishing or by Server.close(): afterwards no server-side transport, passive listener or backend file is open, the connection "
